@@ -3,6 +3,7 @@ NEXT Next
 CONSTANTS
  Len0 = 4
  MaxDepth = 1
+ TrackShiftLeft = FALSE
  TwoParts = TRUE
 INVARIANT C13_GroupAction
 INVARIANT C13_FeaturesFollow
